@@ -82,6 +82,7 @@ structure Ctx (t : ITree) : Prop where
   muxOK : ∀ n, Item.mux n ∈ t.top → MuxOK n
   one : (muxesOf t.top).length ≤ 1
   nonempty : t.top = [] → t.bigEndian = false
+  flat : t.nested = []
 
 theorem itemNames_sub_nodup (top : List Item) (x : Item) (hx : x ∈ top) (h : (regNames top).Nodup) :
     (itemNames x).Nodup := by
@@ -91,8 +92,8 @@ theorem itemNames_sub_nodup (top : List Item) (x : Item) (hx : x ∈ top) (h : (
   exact this.1
 
 theorem ctx_of (t : ITree) (h : Expressible t) : Ctx t := by
-  obtain ⟨h1, h2, h3, h4, h5, h6, h7⟩ := h
-  refine ⟨h1, h2, compatible_of_wf _ _ h3 h4, h3, ?_, h5, h7⟩
+  obtain ⟨h1, h2, h3, h4, h5, h6, h7, h8⟩ := h
+  refine ⟨h1, h2, compatible_of_wf _ _ h3 h4, h3, ?_, h5, h7, h8⟩
   intro n hn
   have hnd := itemNames_sub_nodup t.top (.mux n) hn h4
   simp only [itemNames, List.nodup_cons] at hnd
@@ -237,7 +238,6 @@ theorem round_plain (t : ITree) (c : Ctx t) (hm : muxesOf t.top = []) :
     rw [List.append_nil] at h2
     exact perm_sorted_eq Item.start _ _ (h2.trans hleaf) (wf_sorted_top _ _ h3) (wf_sorted_top _ _ c.wf)
   have := importMsg_eval_plain (exportMsg t) t.top
-    (nestedRequested_false _ (by rw [hfilter]; simp))
     (by
       rw [hcap, hbe]
       exact firstLoop_ok _ _ _ [] (fun s hs => ⟨(hokS s hs).bound, (hokS s hs).be⟩) hnames (fun s _ hm => by cases hm))
@@ -249,6 +249,7 @@ theorem round_plain (t : ITree) (c : Ctx t) (hm : muxesOf t.top = []) :
   have : (((exportMsg t).size : Nat) : Int) = t.sizeByte := by
     rw [hsize, Int.toNat_of_nonneg c.size0]
   rw [this]
-  rfl
+  show (⟨t.id, t.sizeByte, t.bigEndian, t.top, []⟩ : ITree) = ⟨t.id, t.sizeByte, t.bigEndian, t.top, t.nested⟩
+  rw [c.flat]
 
 end Acme.Import
